@@ -6,7 +6,7 @@
    start by any sequence of updates does: C14_reachable_inv), [new] over all projects (lists with
    distinct names), configurations over all field valuations. *)
 From Coq Require Import List NArith Bool.
-From PC.Update Require Import Model Proofs.
+From PC.Update Require Import Model Proofs Check MonLink.
 Import ListNotations.
 Local Open Scope N_scope.
 
@@ -165,6 +165,19 @@ Theorem C14_compare_unfixed_partial : forall a b,
   forall f, In f launch_relevant -> f <> FExecutable -> get f a = get f b.
 Proof. exact compare_orig_sensitive_but_executable. Qed.
 Print Assumptions C14_compare_unfixed_partial.
+
+(* model => monitor for Compare cases: the check's Compare monitor (cmp_holds: "equal" implies agreement on
+   every launch-relevant field; agreement on every real field implies "equal") accepts the model's own answer
+   for EVERY pair of configurations, and rejects the unrepaired field list on some pair. *)
+Theorem C14_compare_monitor_accepts_model : forall a b : pconf,
+  cmp_holds (mkC a b (compare a b)) = true /\ cmp_model_ok (mkC a b (compare a b)) = true.
+Proof. exact (fun a b => conj (cmp_monitor_on_model a b) (cmp_model_on_model a b)). Qed.
+Print Assumptions C14_compare_monitor_accepts_model.
+
+Theorem C14_compare_monitor_rejects_unfixed :
+  exists a b : pconf, cmp_holds (mkC a b (compare_with compared_orig a b)) = false.
+Proof. exact cmp_monitor_rejects_unfixed. Qed.
+Print Assumptions C14_compare_monitor_rejects_unfixed.
 
 (* non-vacuity: a running project of three processes updated so that one is kept, one replaced, one
    removed and one added; the hypotheses of all theorems are met and the outcome is the expected one *)
